@@ -56,6 +56,7 @@ class StatsRun:
         w = self.w
         w.patch()
         w.start_manager()
+        self.t_mgr_start = w.clock.now
         self.mon = Actor(w, "mon")
         self.mon.open()
         self.mon.handshake("v2v1", req_id=90, logger=True, name=b"monitor", pid=9090)
@@ -324,6 +325,29 @@ class StatsRun:
             if timing:
                 res.add("C18", "timing_sent_although_disabled", "TIMING_MESSAGE published with send_msg_timing off")
         prev = None
+        # the manager's very first report covers everything since it started.  What it originated itself before the
+        # monitor could see it is unknown here, so only types that nothing but clients publish are judged -- they must
+        # not contain anything an earlier manager of the same process had handled
+        first_acks = [w_ for w_ in mon_tx if w_.hdr.msg_type == C.MT_ACKNOWLEDGE]
+        if timing and not self.watch_mode and len(first_acks) > 1 and first_acks[1].t - self.t_mgr_start < 0.5 \
+                and len(timing[0].payload) == 20808:
+            wfr = timing[0]
+            arr = struct.unpack_from("<10000H", wfr.payload, 0)
+            exp = Counter()
+            for s_, t_, o_ in events:
+                if s_ < wfr.seq and o_ == "client":
+                    exp[t_] += 1
+            mgr_types = set(STAT_TYPES) | set(C.LOG_TYPES) | {C.MT_FAILED_MESSAGE, C.MT_CLIENT_INFO, C.MT_CLIENT_CLOSED,
+                                                            C.MT_ACKNOWLEDGE}
+            for t in range(10000):
+                if t in mgr_types:
+                    continue
+                if arr[t] != (exp.get(t, 0) & 0xFFFF):
+                    res.add("C18", "timing_count",
+                            f"the first TIMING_MESSAGE reports {arr[t]} messages of type {t}; {exp.get(t, 0)} were handled "
+                            f"since the manager started", sig="timing_count_first_report")
+                    break
+            res.probes["first_timing_report_checked"] += 1
         for wfr in timing:
             if prev is None or prev.seq < view_from:
                 prev = wfr
